@@ -4,6 +4,7 @@ CONSTANTS
   Variant = "prefix"
   MaxDefs = 3
   MaxGets = 2
+  InjLen = 0
   Emit = FALSE
 INVARIANTS StackEmptyWhenQuiet
 VIEW View
